@@ -1,7 +1,11 @@
-(* family 13: stub, to be filled *)
+(* family 13: the seven file-directive PDUs, split in three parts by op range:
+   1300-1339 EOF/ACK/Prompt/KeepAlive, 1340-1369 Finished/Metadata, 1370-1399 NAK *)
 From Coq Require Import ZArith List Bool.
-From SP Require Import Base.Result Base.Bytes Run.Marshal.
+From SP Require Import Base.Result Base.Bytes Run.Marshal Run.DispPduA Run.DispPduB Run.DispPduC.
 Import ListNotations.
 Open Scope Z_scope.
 
-Definition run_pdu (op : Z) (a : args) : args := [[1; 97]].
+Definition run_pdu (op : Z) (a : args) : args :=
+  if op <? 1340 then run_pdu_a op a
+  else if op <? 1370 then run_pdu_b op a
+  else run_pdu_c op a.
